@@ -165,6 +165,15 @@ func main() {
 			}
 			x.flush()
 		})
+		r.Cases("twin", r.Scale(120, 2000), workers, func(c *vkit.Case) {
+			x := newCx(c, true)
+			if c.Index%2 == 0 {
+				twinErrors(x, c.Rand)
+			} else {
+				twinCalls(x, c.Rand)
+			}
+			x.flush()
+		})
 		r.Cases("xerrors-fixed", 1, 1, func(c *vkit.Case) {
 			x := newCx(c, true)
 			xerrorsFixed(x)
@@ -176,7 +185,11 @@ func main() {
 			x := newCx(c, true)
 			n, k := c.Index/(nkMax+1), c.Index%(nkMax+1)
 			rr := rand.New(rand.NewSource(int64(c.Rand.Uint64() >> 1)))
-			for rep := 0; rep < r.Scale(40, 400) && !x.failed; rep++ {
+			reps := r.Scale(40, 400)
+			if slow32 {
+				reps = 40
+			}
+			for rep := 0; rep < reps && !x.failed; rep++ {
 				sampleCheck(x, rr, n, k)
 			}
 			if k == 0 {
@@ -256,8 +269,11 @@ func main() {
 
 		// ---- frequency monitor
 		tables := freqTables()
-		const draws = 200000
+		draws := 200000
 		perTable := r.Scale(1, 4) // quick: each table through one of the four RSample* functions (rotating); thorough: all four
+		if slow32 {
+			draws, perTable = 20000, 1 // 32-bit: the sampler's float code is ~50x slower; same false-alarm bound
+		}
 		r.Cases("frequency", len(tables)*perTable, workers, func(c *vkit.Case) {
 			x := newCx(c, true)
 			t := tables[c.Index/perTable]
@@ -288,8 +304,9 @@ func main() {
 			r.Floor("documented panic seen: Abs of the minimum of "+tn, r.Table("documented panics seen", "xmath.Abs of the minimum of "+tn), 1)
 		}
 		r.Floor("astronomic: Chunk into >= 2 chunks with 2*chunkSize > MaxInt", r.Table("astronomic", "Chunk with >= 2 chunks and 2*chunkSize > MaxInt"), 1)
-		r.Floor("astronomic: RSample tables with n >= 2^40", r.Table("astronomic", "RSample tables with n >= 2^40"), 18)
-		r.Floor("astronomic: RSample low-bit tables (position mod 2,3,4,8,16,256)", r.Table("astronomic", "RSample low-bit tables"), 108)
+		hugeN, _, _ := hugeNs()
+		r.Floor("astronomic: RSample tables with huge n (up to MaxInt)", r.Table("astronomic", "RSample tables with huge n"), int64(2*len(hugeN)))
+		r.Floor("astronomic: RSample low-bit tables (position mod 2,3,4,8,16,256)", r.Table("astronomic", "RSample low-bit tables"), int64(12*len(hugeN)))
 		for _, fn := range []string{"xsort.Merge", "xsort.MergeSlices", "xslices.Join", "xmaps.Union", "xmaps.Intersection", "xmaps.Intersects"} {
 			r.Floor("argument-list integrity checks of "+fn, r.Table("argument integrity", fn), 1)
 		}
@@ -302,6 +319,12 @@ func main() {
 		}
 		for _, k := range []string{"trees with at least one stack", "WithStack of an error with a stack somewhere in its tree", "WithStack inside a branch of a multi-error", "stacked target", "stacked target with a non-comparable inner error"} {
 			r.Floor("error trees: "+k, r.Table("error trees", k), 1)
+		}
+		for _, k := range []string{"xerrors scenarios", "slice/map/sort/sample scenarios"} {
+			r.Floor("twin oracle: "+k, r.Table("twin oracle", k), 1)
+		}
+		for _, fn := range []string{"xmaps.Reverse", "xslices.Group", "xslices.Runs", "xslices.Chunk"} {
+			r.Floor("result parts independence checks of "+fn, r.Table("result parts independence", fn), 1)
 		}
 		r.Floor("Runs inputs with a leading run of length one", r.Table("runs", "leading run of length one"), 1)
 		r.Floor("Partition inputs with both sides non-empty", r.Table("partition", "both sides non-empty"), 1)
